@@ -49,7 +49,8 @@ def _fts_inputs():
           re.compile("Cisco"): node([("Cisco",)], {re.compile("Nexus"): node([("Cisco", "Nexus")])})}
     cands = [("Huawei",), ("Huawei", "CE"), ("CE",), ("Huawei", "CE", "CE6800"), ("Huawei", "NE"), ("Cisco",), ("Cisco", "Nexus"), ("X",)]
     for tree in (t1, {}, {re.compile("."): node([("any",)])}):
-        for model in ("Huawei CE6870", "Huawei NE40", "Cisco Nexus 9508", "Cisco Catalyst", "Arista", "Huawei CE12800"):
+        for model in ("Huawei CE6870", "Huawei NE40", "Cisco Nexus 9508", "Cisco Catalyst", "Arista", "Huawei CE12800", "Nexus 9508", "Acme CE6850",
+                      "NE40 CE68"):
             for s in cands + [("any",)]:
                 yield dict(hw_model=model, tree=tree, s=s)
 
